@@ -75,12 +75,12 @@ SIM_CHECKS = {
     },
     'C08': {
         'profiles': [('tz-history', 'plain')],
-        'runs': {'quick': 1000000, 'thorough': 60000000},
+        'runs': {'quick': 600000, 'thorough': 50000000},
         'batch': {'quick': 5000, 'thorough': 100000},
         'cells': 'c08',
         'bitmap': True,
         'needs_history_rule': True,
-        'py_stage': {'runs': {'quick': 24000, 'thorough': 1200000}},
+        'py_stage': {'runs': {'quick': 16000, 'thorough': 800000}},
         'extra_coverage': lambda total: {
             'cached_year_transitions': {
                 'measure': 'ordered (zone, previously cached year, queried year) triples with both years in 1999..2050, '
@@ -103,6 +103,10 @@ SIM_CHECKS = {
             'two error values are equal whatever their payload',
             'a crash that reproduces with the final op alone on a new device is not a history dependence and is left to C09',
             'name lookups (C10) and INT32-extreme arguments (C09) are kept out of this profile',
+            '"fresh" is made robust against state that outlives a processor: an unrelated decoy zone is exercised between the client '
+            'and the fresh processor (in a quarter of the runs also before the client), fresh answers must agree with earlier fresh '
+            'answers to the same question in the run, and a sample of runs (every 96th in batch mode, every replay) is executed in a '
+            'process with no history whose fresh answers come from one pristine process per question',
         ],
     },
     'C09': {
